@@ -388,21 +388,30 @@ func isSweepInsertion(c *wlCtor, u *ssa.MapUpdate) (bool, string) {
 		return false, "key is not an element of the input: " + core.Describe(u.Key)
 	}
 	ia, ok := ld.X.(*ssa.IndexAddr)
-	if !ok || ia.X != ssa.Value(c.param) {
+	if !ok {
 		return false, "key is not an element of the constructor's parameter"
+	}
+	// the swept slice: the parameter itself, or a private full copy of it that nothing else writes
+	swept := ssa.Value(c.param)
+	if ia.X != swept {
+		if src, isCopy := fullCopyOf(ia.X); isCopy && src == swept {
+			swept = ia.X
+		} else {
+			return false, "key is not an element of the constructor's parameter"
+		}
 	}
 	l := core.InnermostLoop(c.loops, u.Block())
 	if l == nil {
 		return false, "insertion is not inside a loop"
 	}
 	ri, ok := core.AsRange(l)
-	if ok && ri.Kind == "slice" && ri.X == ssa.Value(c.param) && ia.Index == ri.Index {
+	if ok && ri.Kind == "slice" && ri.X == swept && ia.Index == ri.Index {
 		// fine
 	} else if cnt, ok2 := core.AsCounted(l); ok2 && cnt.Step == 1 && ia.Index == ssa.Value(cnt.Phi) {
 		if z, isC := core.ConstInt(cnt.Init); !isC || z != 0 {
 			return false, "counted sweep does not start at 0"
 		}
-		if x, isLen := core.LenOf(cnt.Bound); !isLen || x != ssa.Value(c.param) || cnt.Op != token.LSS {
+		if x, isLen := core.LenOf(cnt.Bound); !isLen || (x != ssa.Value(c.param) && x != swept) || cnt.Op != token.LSS {
 			return false, "counted sweep does not run to len(list)"
 		}
 	} else {
@@ -423,6 +432,74 @@ func isSweepInsertion(c *wlCtor, u *ssa.MapUpdate) (bool, string) {
 		}
 	}
 	return true, ""
+}
+
+// fullCopyOf: v is `make([]T, len(src))` filled by exactly one `copy(v, src)` and otherwise only read,
+// or `append([]T(nil), src...)`: element for element the slice src.
+func fullCopyOf(v ssa.Value) (ssa.Value, bool) {
+	switch x := core.StripType(v).(type) {
+	case *ssa.MakeSlice:
+		src, isLen := core.LenOf(x.Len)
+		if !isLen {
+			return nil, false
+		}
+		copies := 0
+		for _, ref := range core.Referrers(x) {
+			switch y := ref.(type) {
+			case *ssa.Call:
+				switch {
+				case core.IsBuiltin(y, "copy"):
+					if y.Call.Args[0] != ssa.Value(x) || y.Call.Args[1] != src || y.Block() != x.Block() {
+						return nil, false
+					}
+					copies++
+				case core.IsBuiltin(y, "len"), core.IsBuiltin(y, "cap"):
+				default:
+					return nil, false
+				}
+			case *ssa.IndexAddr:
+				for _, r2 := range core.Referrers(y) {
+					if st, ok := r2.(*ssa.Store); ok && st.Addr == ssa.Value(y) {
+						return nil, false
+					}
+				}
+			case *ssa.Range, *ssa.DebugRef:
+			default:
+				return nil, false
+			}
+		}
+		return src, copies == 1
+	case *ssa.Call:
+		if core.IsBuiltin(x, "append") && len(x.Call.Args) == 2 {
+			a0 := core.StripType(x.Call.Args[0])
+			empty := core.IsNilConst(a0)
+			if sl, ok := a0.(*ssa.Slice); ok {
+				if al, ok := sl.X.(*ssa.Alloc); ok {
+					if at, ok := al.Type().Underlying().(*types.Pointer).Elem().Underlying().(*types.Array); ok && at.Len() == 0 {
+						empty = true
+					}
+				}
+			}
+			if empty {
+				for _, ref := range core.Referrers(x) {
+					switch y := ref.(type) {
+					case *ssa.IndexAddr:
+						for _, r2 := range core.Referrers(y) {
+							if st, ok := r2.(*ssa.Store); ok && st.Addr == ssa.Value(y) {
+								return nil, false
+							}
+						}
+					case *ssa.Call:
+						if !core.IsBuiltin(y, "len") && !core.IsBuiltin(y, "cap") {
+							return nil, false
+						}
+					}
+				}
+				return x.Call.Args[1], true
+			}
+		}
+	}
+	return nil, false
 }
 
 func stripNot(v ssa.Value) ssa.Value {
